@@ -3,7 +3,7 @@
     returns the labels and bonds of transform *)
 From Coq Require Import List NArith ZArith Bool Lia Arith.
 From SK Require Import lib.LGraph lib.C01_GraphLemmas model.C01_Model model.C02_Model model.C01_String model.C01_DecRaw model.C01_Builders model.C01_M2GIdx
-  proof.C01_Proof proof.C01_StringProof proof.C01_StringPipe proof.C01_NbrsProof proof.C01_LightProof proof.C01_M2GGeneral.
+  proof.C01_Proof proof.C01_StringProof proof.C01_StringPipe proof.C01_NbrsProof proof.C01_BuildersProof proof.C01_LightProof proof.C01_M2GGeneral.
 Import ListNotations.
 
 Section LightGen.
@@ -314,3 +314,15 @@ Proof.
   - intros u v. apply (light_bonds_g g' EL u v).
 Qed.
 End LightGen.
+
+(** summary for the classmethod: all three builders *)
+Lemma builders_agree (m : rmol) (drop use : bool) :
+  NoDup (map fst (gen_nodes drop use m)) -> simple (gen_bonds drop use m) -> drop && negb use = false ->
+  exists g g', mol_to_graph drop use m = Some g /\ detailed_graph drop use m = Some g /\ light_graph drop use m = Some g' /\
+    g = LG (gen_nodes drop use m) (gen_bonds drop use m) /\
+    (forall n, label g' n = option_map Some (label g n)) /\ (forall u v, adj g' u v = adj g u v).
+Proof.
+  intros Hn Hs Ef. destruct (light_is_transform_general m drop use Hn Hs Ef) as (g & g' & E1 & E2 & L & A).
+  exists g, g'. split; [exact E1|]. split; [rewrite C01_BuildersProof.detailed_is_transform; exact E1|]. split; [exact E2|].
+  split; [|split; [exact L|exact A]]. rewrite (mol_to_graph_general drop use m Ef Hn Hs) in E1. inversion E1. reflexivity.
+Qed.
